@@ -15,6 +15,8 @@ import (
 	"fmt"
 	"os"
 	"path/filepath"
+	"runtime"
+	"strconv"
 	"strings"
 
 	"github.com/feichai0017/NoKV/kv"
@@ -200,6 +202,8 @@ func describeWant(want []entry) string {
 }
 
 type failure struct{ Sig, Desc string }
+
+var statsEvery, _ = strconv.Atoi(os.Getenv("VERIF_C35_STATS"))
 
 // check runs every query against vt and returns every distinct failure (a known defect must not mask others).
 func (c *checker) check(vt *lsm.VerifTable, tc tcase, phase string, probes []ikey) (fails []failure) {
@@ -528,6 +532,13 @@ func (c *checker) run(tc tcase) (fails []failure) {
 	}
 	vt, err := lsm.VerifBuildTable(c.dir, fid, opts, ves)
 	c.p.Add("tables", 1)
+	if statsEvery > 0 && c.p.Counters["tables"]%int64(statsEvery) == 0 { // leak watch (VERIF_C35_STATS=N)
+		var m runtime.MemStats
+		runtime.ReadMemStats(&m)
+		fmt.Fprintf(os.Stderr, "c35-stats tables=%d goroutines=%d heap_inuse_mb=%d sys_mb=%d %s\n", c.p.Counters["tables"], runtime.NumGoroutine(), m.HeapInuse>>20, m.Sys>>20, tc.Cfg)
+	}
+	c.p.Max("max_goroutines", int64(runtime.NumGoroutine()))
+	c.p.Max("max_table_handles_left_open", int64(lsm.VerifLeakedHandles))
 	if err != nil {
 		return []failure{{"build-error " + normErr(err), fmt.Sprintf("%s; building %s: %v", tc.Cfg, describeWant(tc.Entries), err)}}
 	}
@@ -760,7 +771,7 @@ func main() {
 	}
 	outcomes := total.Card("outcomes")
 	r.RequireOutcomes(outcomes, 8)
-	if total.Counters["max_blocks"] < 3 || total.Counters["tables_with_bloom"] == 0 || total.Counters["reseeks"] == 0 {
+	if !total.TimedOut && (total.Counters["max_blocks"] < 3 || total.Counters["tables_with_bloom"] == 0 || total.Counters["reseeks"] == 0) {
 		vr.Fatalf("vacuous: max_blocks=%d tables_with_bloom=%d", total.Counters["max_blocks"], total.Counters["tables_with_bloom"])
 	}
 	r.Finish(vr.Coverage{
@@ -773,6 +784,7 @@ func main() {
 		Outcomes:    outcomes,
 		Bounds:      map[string]any{"configs": cfgNames, "universe": len(uni), "probes": len(prb), "value_classes": "0,1,blockSize+1", "metas": metas, "expires": exps},
 		Extra: map[string]any{"tables_built": total.Counters["tables"], "tables_with_bloom": total.Counters["tables_with_bloom"], "max_blocks_in_a_table": total.Counters["max_blocks"],
+			"max_goroutines_in_a_worker": total.Counters["max_goroutines"], "max_table_handles_left_open_in_a_worker": total.Counters["max_table_handles_left_open"],
 			"shared_prefix_tables": total.Counters["prefix_tables"], "reseeks_on_long_lived_iterators": total.Counters["reseeks"]},
 		Assumptions: []string{"tables are opened through openTable with a minimal levelManager (options + cache only); level handlers are not involved",
 			"Search is called with no version floor (maxVs=0), so versions start at 1",
